@@ -154,6 +154,9 @@ def monitor_real_graders(ctx):
             k1, r1 = GG.run_impl(lambda: g0(None, inp))
             k2, r2 = GG.run_impl(lambda: mk(answers=alts0, wrong_msg=wrong0)(None, inp))
             ctx.contract_checks += 1
+            if k1 == 'out' and len(exps) > 2 and inp == exps[2] and abs(r1['grade_decimal'] - 0.5) < 1e-12 and r1['msg'] != 'half':
+                ctx.violation('the matched half-credit alternative\'s own feedback must be reported (real %s grader)' % name,
+                              {'monitor': name, 'answers': list(alts0), 'wrong_msg': wrong0, 'input': inp}, impl=GG.canon_result(r1))
             if (k1, r1 if k1 == 'err' else GG.canon_result(r1)) != (k2, r2 if k2 == 'err' else GG.canon_result(r2)):
                 ctx.violation('a grader that has already graded other submissions answers differently from a fresh one (real %s grader, fixed scenario)' % name,
                               {'monitor': name, 'answers': list(alts0), 'wrong_msg': wrong0, 'input': inp}, impl=r1 if k1 == 'err' else GG.canon_result(r1), expected=r2 if k2 == 'err' else GG.canon_result(r2))
